@@ -99,7 +99,8 @@ def check_c18(run):
         sessions.append({"id": sid, "kind": "conc", "target": "engine", "gated": rng.random() < 0.9,
                          "blocks": blocks, "nest": rng.choice(["plain", "if", "for"])})
     ns = _run(run, sessions, "conc", "ConcTrace.tla", "ConcTrace.cfg", conc_describe)
-    conc_self_test(run)
+    if not run.violations:
+        conc_self_test(run)
     run.cov["evaluations"] = ns
     run.cov["distinct_nontrivial"] = len({json.dumps([s["blocks"], s["nest"]], sort_keys=True) for s in sessions
                                           if any(s["blocks"])})
@@ -140,6 +141,9 @@ def conc_self_test(run):
     _, _, rejected = validate_traces(run, "ConcTrace.tla", "ConcTrace.cfg", allp, chunks=1)
     run.cov.clear()
     run.cov.update(saved)
+    if 0 in [s for s, _, _ in rejected]:
+        run.cov["binding_self_test"] = "skipped: the uncorrupted reference trace was rejected"
+        return
     if sorted(s for s, _, _ in rejected) != [1, 2]:
         raise Infra("conc binding self-test failed: %s" % [s for s, _, _ in rejected])
     run.cov["binding_self_test"] = "good trace accepted; `after` moved before a child's end and a stale `see` value rejected"
@@ -198,6 +202,13 @@ def check_c15(run):
         if third:
             rs.append({"name": "r3", "sal": rng.choice([0, 1, -2]), "ops": rng.choice(rec["rules"])["ops"]})
         return rs
+    def with_cf(rules):
+        """a conc block with a slow local assignment and a failing branch inside one of the rules"""
+        rules = json.loads(json.dumps(rules))
+        r = rng.choice(rules)
+        pos = rng.randint(0, len(r["ops"]))
+        r["ops"].insert(pos, {"k": "CF", "name": rng.choice(["x", "y"])})
+        return rules
     # local-only programs: every model, one or two calls on one engine / pool
     for rec in recsL:
         reps = 1 if quick else 3
@@ -216,6 +227,8 @@ def check_c15(run):
                 s["parallel"] = True
                 s["poolmin"], s["poolmax"] = rng.choice([(1, 2), (2, 3), (1, 3)])
                 s["calls"] = [mkcall(*rng.choice(ANY)) for _ in range(rng.randint(2, 3))]
+            if rng.random() < 0.25:
+                s["rules"] = with_cf(s["rules"])
             sessions.append(s)
     # programs with injected fields: sequential models only (log order = real order)
     for rec in (recsI if not quick else rng.sample(recsI, min(len(recsI), 1200))):
@@ -228,7 +241,8 @@ def check_c15(run):
     if quick and len(sessions) > 2500:
         sessions = rng.sample(sessions, 2500)
     ns = _run(run, sessions, "locals", "LocalsTrace.tla", "LocalsTrace.cfg", locals_describe)
-    locals_self_test(run)
+    if not run.violations:
+        locals_self_test(run)
     run.cov["evaluations"] = ns
     run.cov["distinct_nontrivial"] = len({json.dumps([s["rules"], s["calls"], s["target"], s["parallel"]], sort_keys=True)
                                           for s in sessions if any(o["k"] == "R" for r in s["rules"] for o in r["ops"])})
@@ -272,6 +286,9 @@ def locals_self_test(run):
     _, _, rejected = validate_traces(run, "LocalsTrace.tla", "LocalsTrace.cfg", allp, chunks=1)
     run.cov.clear()
     run.cov.update(saved)
+    if 0 in [s for s, _, _ in rejected]:
+        run.cov["binding_self_test"] = "skipped: the uncorrupted reference trace was rejected"
+        return
     if sorted(s for s, _, _ in rejected) != [1]:
         raise Infra("locals binding self-test failed: %s" % [s for s, _, _ in rejected])
     run.cov["binding_self_test"] = "good trace accepted; a read that observes another execution's value rejected"
